@@ -577,7 +577,11 @@ func (fc *FCtx) callByContract(c *FuncContract, fn *types.Func, sig *types.Signa
 	var outs []outParam
 	if recvExpr != nil && sig.Recv() != nil {
 		rv := fc.evalRecvExpr(recvExpr, st)
-		names[sig.Recv().Name()] = rv
+		rname := sig.Recv().Name()
+		if rname == "" || rname == "_" {
+			rname = c.RecvName
+		}
+		names[rname] = rv
 		if _, isPtr := sig.Recv().Type().(*types.Pointer); isPtr && fc.implicitRecv[recvExpr] == nil {
 			outs = append(outs, outParam{sig.Recv().Name(), recvExpr, sig.Recv().Type()})
 		}
@@ -960,6 +964,7 @@ var extAliases = map[string]struct {
 	"Coins.Add":      {"(github.com/cosmos/cosmos-sdk/types.Coins).Add", "sdk.Coins"},
 	"Coins.Sub":      {"(github.com/cosmos/cosmos-sdk/types.Coins).Sub", "sdk.Coins"},
 	"Coins.IsAnyGT":  {"(github.com/cosmos/cosmos-sdk/types.Coins).IsAnyGT", "Bool"},
+	"bytes.Join":     {"bytes.Join", "Bz"},
 	"binary.Varint":  {"encoding/binary.Varint", "Int"},
 	"binary.Varint#1": {"encoding/binary.Varint", "Int"},
 	"merkle.HashFromByteSlices": {"github.com/cometbft/cometbft/crypto/merkle.HashFromByteSlices", "Bz"},
